@@ -218,3 +218,61 @@ def assigned_targets(stmt):
             if it.optional_vars is not None:
                 flat(it.optional_vars)
     return out
+
+
+def _rw(s):
+    """(written names, read names) of a simple statement; a subscript/attribute store writes and reads its base"""
+    w, r = set(), set()
+    for n in ast.walk(s):
+        if isinstance(n, ast.Name):
+            (w if isinstance(n.ctx, (ast.Store, ast.Del)) else r).add(n.id)
+    tg = s.targets if isinstance(s, ast.Assign) else [s.target] if isinstance(s, (ast.AugAssign, ast.AnnAssign)) else []
+    for t in tg:
+        for tt in (t.elts if isinstance(t, (ast.Tuple, ast.List)) else [t]):
+            b = tt
+            while isinstance(b, (ast.Subscript, ast.Attribute, ast.Starred)):
+                b = b.value
+            if isinstance(b, ast.Name):
+                w.add(b.id)
+                if not isinstance(tt, ast.Name):
+                    r.add(b.id)
+    if isinstance(s, ast.AugAssign):
+        r |= w
+    if isinstance(s, ast.Expr) and isinstance(s.value, ast.Call) and isinstance(s.value.func, ast.Attribute):
+        b = s.value.func.value
+        while isinstance(b, (ast.Subscript, ast.Attribute)):
+            b = b.value
+        if isinstance(b, ast.Name):
+            w.add(b.id)          # method call on an object may mutate it
+    return w, r
+
+
+def independent(a, b):
+    wa, ra = _rw(a)
+    wb, rb = _rw(b)
+    return not (wa & (wb | rb) or wb & ra)
+
+
+def same_up_to_reordering(actual, expected_src):
+    """actual: list of ast statements; expected_src: list of source strings in the reference order.
+    True iff the two are equal as multisets of normalised statements and every pair that is *dependent* keeps its reference order."""
+    exp = [ast.parse(t).body[0] for t in expected_src]
+    at = [norm(x) for x in actual]
+    et = [norm(x) for x in exp]
+    if sorted(at) != sorted(et):
+        return False
+    pos = {}
+    for i, t in enumerate(at):
+        pos.setdefault(t, []).append(i)
+    # map expected index -> actual index (first unused occurrence)
+    used = {}
+    amap = []
+    for t in et:
+        k = used.get(t, 0)
+        amap.append(pos[t][k])
+        used[t] = k + 1
+    for i in range(len(exp)):
+        for j in range(i + 1, len(exp)):
+            if not independent(exp[i], exp[j]) and amap[i] > amap[j]:
+                return False
+    return True
